@@ -15,6 +15,7 @@ import CssVerif.Driver.ImportOps
 import CssVerif.Driver.LinkOps
 import CssVerif.Driver.UrlOps
 import CssVerif.Driver.EscOps
+import CssVerif.Driver.ValueOps
 open CssVerif CssVerif.Proto
 
 def showTok (t : Tok) : String :=
@@ -68,6 +69,8 @@ def step (line : String) : String :=
   | ["unesc", t] => EscOps.opUnesc t
   | ["decode", t] => EscOps.opDecode t
   | ["norm", t] => EscOps.opNorm t
+  | ["vparse", w] => ValueOps.opVparse w
+  | ["vser", p, w] => ValueOps.opVser p w
   | ["sel", ns, hex] => SelOps.opSel ns hex
   | ["num", fx, om, hex] => NumOps.opNum fx om hex
   | ["numval", hex] => NumOps.opVal hex
